@@ -325,6 +325,13 @@ func cmdCheck(args []string) int {
 				validated++
 			} else {
 				mismatched++
+				if data, err := os.ReadFile(e.Tape); err == nil {
+					var draws interface{}
+					json.Unmarshal(data, &draws)
+					doc := map[string]interface{}{"property": spec.ID, "harness": e.Harness, "tier": *tier, "kind": e.Kind, "msg": "witness mismatch: native " + got.Kind + " " + got.Msg, "draws": draws}
+					dd, _ := json.MarshalIndent(doc, "", " ")
+					os.WriteFile(filepath.Join(replayDir, fmt.Sprintf("mismatch-%s-%s-%d.json", spec.ID, e.Harness, mismatched)), dd, 0o644)
+				}
 				problems = append(problems, fmt.Sprintf("witness replay mismatch in %s: engine predicted %s %v, native gave %s %q %v", e.Harness, e.Kind, e.Covers, got.Kind, got.Msg, got.Covers))
 			}
 		case 'v':
